@@ -18,6 +18,7 @@ func checkC01(p *Prog, r *Report) {
 	}
 	ruleReflectTypestate(p, a, r, "R-C01-K", nil)
 	ruleErrorAssertions(p, a, r, "R-C01-T", false)
+	ruleNilPointerFromData(p, a, r, "R-C01-NILPTR")
 	ruleDivisionGuards(p, a, r, "R-C01-D", false)
 	ruleC01Panics(p, a, r)
 	ruleResourceCaps(p, a, r, "R-C01-CAP")
